@@ -314,6 +314,27 @@ func TestVerif_C30_Shapes(t *testing.T) {
 		pkh := btcutil.Hash160(key.PubKey().SerializeCompressed())
 		builder := bitcoin.NewTransactionBuilder(btc)
 		est := bitcoin.NewTransactionSizeEstimator()
+		// The estimator is a mutable builder and VirtualSize a plain read-out:
+		// it may be read at any point of the construction (a fee table built
+		// incrementally, "with and without change") and every read reflects
+		// the shape added so far. Reads are interleaved at drawn points; the
+		// sequence must not decrease and the last one is compared with the
+		// real transaction.
+		reads, lastRead := 0, int64(0)
+		readOut := func(where string) {
+			if !rapid.Bool().Draw(t, "readEstimate"+where) {
+				return
+			}
+			v, err := est.VirtualSize()
+			if err != nil {
+				t.Fatalf("estimator error %s: %v", where, err)
+			}
+			if v < lastRead {
+				t.Fatalf("estimate shrank from %d to %d %s although the shape only grew", lastRead, v, where)
+			}
+			reads, lastRead = reads+1, v
+		}
+		readOut("Empty")
 		var shape strings.Builder
 
 		budget := 21
@@ -330,7 +351,10 @@ func TestVerif_C30_Shapes(t *testing.T) {
 				t.Fatalf("add input: %v", err)
 			}
 		}
-		est.AddPublicKeyHashInputs(khLegacy, false).AddPublicKeyHashInputs(khWitness, true)
+		est.AddPublicKeyHashInputs(khLegacy, false)
+		readOut("AfterLegacyKeyHashInputs")
+		est.AddPublicKeyHashInputs(khWitness, true)
+		readOut("AfterKeyHashInputs")
 		fmt.Fprintf(&shape, "in: p2pkh*%d p2wpkh*%d", khLegacy, khWitness)
 
 		groups := rapid.IntRange(0, 3).Draw(t, "scriptHashGroups")
@@ -384,6 +408,7 @@ func TestVerif_C30_Shapes(t *testing.T) {
 				}
 			}
 			est.AddScriptHashInputs(count, length, witness)
+			readOut("AfterScriptHashGroup")
 			if witness {
 				witnessScriptInputs += count
 				fmt.Fprintf(&shape, " p2wsh[%d]*%d", length, count)
@@ -421,8 +446,9 @@ func TestVerif_C30_Shapes(t *testing.T) {
 				builder.AddOutput(&bitcoin.TransactionOutput{Value: rapid.Int64Range(0, 2_100_000_000_000_000).Draw(t, "outValue"), PublicKeyScript: script})
 			}
 		}
-		est.AddPublicKeyHashOutputs(counts[0], false).AddPublicKeyHashOutputs(counts[1], true).
-			AddScriptHashOutputs(counts[2], false).AddScriptHashOutputs(counts[3], true)
+		est.AddPublicKeyHashOutputs(counts[0], false).AddPublicKeyHashOutputs(counts[1], true)
+		readOut("AfterKeyHashOutputs")
+		est.AddScriptHashOutputs(counts[2], false).AddScriptHashOutputs(counts[3], true)
 		fmt.Fprintf(&shape, " out: p2pkh*%d p2wpkh*%d p2sh*%d p2wsh*%d", counts[0], counts[1], counts[2], counts[3])
 
 		mode := c30SigMode(t)
@@ -430,6 +456,12 @@ func TestVerif_C30_Shapes(t *testing.T) {
 		estimated, err := est.VirtualSize()
 		if err != nil {
 			t.Fatalf("estimator error for %s: %v", shape.String(), err)
+		}
+		if estimated < lastRead {
+			t.Fatalf("%s: estimate shrank from %d to %d although the shape only grew", shape.String(), lastRead, estimated)
+		}
+		if again, _ := est.VirtualSize(); again != estimated {
+			t.Fatalf("%s: two reads of the same shape give %d and %d", shape.String(), estimated, again)
 		}
 		real := c30VirtualSize(tx)
 		if estimated < real {
@@ -444,7 +476,7 @@ func TestVerif_C30_Shapes(t *testing.T) {
 			slackClass = ">2"
 		}
 		st.Case(nt, fmt.Sprintf("%s sigs=%s est=%d real=%d", shape.String(), mode, estimated, real),
-			"signatures:"+mode, "slack-vbytes:"+slackClass,
+			"signatures:"+mode, "slack-vbytes:"+slackClass, fmt.Sprintf("intermediate-reads:%d", min(reads, 3)),
 			fmt.Sprintf("legacy-script-inputs:%v", legacyScriptInputs > 0), fmt.Sprintf("witness-script-inputs:%v", witnessScriptInputs > 0),
 			fmt.Sprintf("non-tbtc-script-length:%v", oddLengths > 0), fmt.Sprintf("all-signatures-max:%v", sig.minus1+sig.shorter == 0))
 	})
